@@ -31,29 +31,30 @@ type tCase struct {
 }
 
 type tObs struct {
-	Case         tCase               `json:"case"`
-	Done         bool                `json:"done"`
-	Blocked      string              `json:"blocked,omitempty"`
-	Incon        string              `json:"inconclusive,omitempty"`
-	POrder       string              `json:"porder"`
-	Status       map[string]int      `json:"status"`         // actor -> HTTP status of its request (-1: transport error, 0: not an HTTP operation)
-	KnownAtStart []string            `json:"known_at_start"` // ... when Start() was called on the topic (situation unstarted)
-	AckedAtStart []string            `json:"acked_at_start"`
-	KnownAtPut   []string            `json:"known_at_put"`       // channels whose existence had been acknowledged to a client when PUT's put segment was released
-	PausedAtPut  bool                `json:"pause_acked_at_put"` // the topic's pause had been acknowledged (and no unpause requested) at that moment
-	AckedAtExit  []string            `json:"acked_at_exit"`      // messages acknowledged when the shutdown was requested
-	KnownAtExit  []string            `json:"known_at_exit"`      // channels acknowledged by then
-	TopicExists  bool                `json:"topic_exists"`
-	Paused       bool                `json:"paused"`
-	TopicDepth   int64               `json:"topic_depth"` // first settled reading
-	MsgCount     int64               `json:"message_count"`
-	Channels     []string            `json:"channels"`
-	PausedPhase  map[string][]string `json:"paused_phase,omitempty"` // channel -> bodies it delivered while the topic was still paused
-	Final        map[string][]string `json:"final"`                  // channel -> every body it delivered (after unpausing)
-	Restarted    bool                `json:"restarted"`
-	Back         map[string][]string `json:"back,omitempty"`       // after graceful shutdown + restart
-	Unexpected   string              `json:"unexpected,omitempty"` // the pump moved when NsqdTopic says it rests (or the reverse)
-	Events       int                 `json:"events"`
+	Case          tCase               `json:"case"`
+	Done          bool                `json:"done"`
+	Blocked       string              `json:"blocked,omitempty"`
+	Incon         string              `json:"inconclusive,omitempty"`
+	POrder        string              `json:"porder"`
+	Status        map[string]int      `json:"status"`         // actor -> HTTP status of its request (-1: transport error, 0: not an HTTP operation)
+	KnownAtStart  []string            `json:"known_at_start"` // ... when Start() was called on the topic (situation unstarted)
+	AckedAtStart  []string            `json:"acked_at_start"`
+	PausedAtStart bool                `json:"paused_at_start"`    // the topic's pause had been acknowledged when Start() was called
+	KnownAtPut    []string            `json:"known_at_put"`       // channels whose existence had been acknowledged to a client when PUT's put segment was released
+	PausedAtPut   bool                `json:"pause_acked_at_put"` // the topic's pause had been acknowledged (and no unpause requested) at that moment
+	AckedAtExit   []string            `json:"acked_at_exit"`      // messages acknowledged when the shutdown was requested
+	KnownAtExit   []string            `json:"known_at_exit"`      // channels acknowledged by then
+	TopicExists   bool                `json:"topic_exists"`
+	Paused        bool                `json:"paused"`
+	TopicDepth    int64               `json:"topic_depth"` // first settled reading
+	MsgCount      int64               `json:"message_count"`
+	Channels      []string            `json:"channels"`
+	PausedPhase   map[string][]string `json:"paused_phase,omitempty"` // channel -> bodies it delivered while the topic was still paused
+	Final         map[string][]string `json:"final"`                  // channel -> every body it delivered (after unpausing)
+	Restarted     bool                `json:"restarted"`
+	Back          map[string][]string `json:"back,omitempty"`       // after graceful shutdown + restart
+	Unexpected    string              `json:"unexpected,omitempty"` // the pump moved when NsqdTopic says it rests (or the reverse)
+	Events        int                 `json:"events"`
 }
 
 // ---- gates with prefix arming ---------------------------------------------------------------------------------
@@ -504,6 +505,7 @@ func replayTopic(tc tCase, dir string) *tObs {
 		if a.op == "START" && !a.launched {
 			obs.AckedAtStart = ackedNow()
 			obs.KnownAtStart = knownNow()
+			obs.PausedAtStart = pausedNow()
 		}
 		if a.next < len(a.gates) {
 			g.arm(a.gates[a.next], true)
@@ -676,6 +678,7 @@ func replayTopic(tc tCase, dir string) *tObs {
 		if a.op == "START" && !a.launched && obs.Blocked == "" {
 			obs.AckedAtStart = ackedNow()
 			obs.KnownAtStart = knownNow()
+			obs.PausedAtStart = pausedNow()
 			a.launched = true
 			a.launch()
 			select {
